@@ -116,7 +116,7 @@ static int print_i(void (*printchar_handler)(void *d, int c),
 
     str = end = &buff[0] + sizeof buff / sizeof buff[0] - 1;
     *end = '\0';
-    prefix = is_signed && ((long long int)u < 0)         ? (u = -((int)u), "-")
+    prefix = is_signed && ((long long int)u < 0)         ? (u = -u, "-")
              : is_signed && (ops & OPS_FLAG_WITH_SIGN)   ? "+"
              : is_signed && (ops & OPS_FLAG_EXTRA_SPACE) ? " "
              : (base == 8) && (ops & OPS_FLAG_WITH_SPEC) ? "0"
